@@ -35,6 +35,18 @@ structure Problem.WF (P : Problem Var Val) : Prop where
   keysNodup : P.keys.Nodup
   scopes : ∀ c ∈ P.cons, ∀ x ∈ c.scope, x ∈ P.keys
 
+/-- `w` passes every constraint whose only variable is `x` -/
+def unaryOk (cs : List (Constraint Var Val)) (x : Var) (w : Val) : Bool :=
+  cs.all fun c => !decide (c.scope = [x]) || c.pred (known c.scope [(x, w)])
+
+/-- the domain of `x` the search starts from: the values given to `add_variable`, in that order, minus those a
+one-variable constraint rejects -/
+def Problem.domain (P : Problem Var Val) (x : Var) : List Val := ((P.vars.lookup x).getD []).filter (unaryOk P.cons x)
+
+/-- the variable the search branches on first -/
+def Problem.firstVar (P : Problem Var Val) : Option Var :=
+  selectVar P.lt (preprocess P.cons (initStore P.vars)).1 [] (preprocess P.cons (initStore P.vars)).2
+
 /-- `a` is a solution of the problem -/
 structure Problem.Sol (P : Problem Var Val) (a : Var → Val) : Prop where
   dom : ∀ e ∈ P.vars, a e.1 ∈ e.2
